@@ -554,6 +554,9 @@ FIXED_MODULES = [KITCHEN_SINK, ANNOTATED_MODULE, TYPE_CHECKING_MODULE, OWN_IMPOR
 
 
 def run(tier, seed, out, drv, facts):
+    import warnings
+
+    warnings.filterwarnings("ignore", category=SyntaxWarning)     # corpus files with invalid escapes etc.: not our concern
     rng = Rng(seed, "C10")
     thorough = tier == "thorough"
     sys.setrecursionlimit(max(sys.getrecursionlimit(), 5000))
